@@ -1,4 +1,5 @@
 import BarterModel.Lemmas.TradingLoop
+import BarterModel.Lemmas.TradingLoopOps
 /-!
 # C20E — the end-to-end trading loop: engine, execution manager and simulated exchange composed
 (sub-check registered under C20)
@@ -15,12 +16,19 @@ tokio, every sequence of handle calls, every market input) from `lInit`; nothing
 Hypotheses, stated where used:
 * `StrictClock clk` — the client's clock strictly increases from one request to the next (each
   request is stamped `clk n`; the exchange time of its notifications is `clk n + latency/2`). Needed
-  for the balance half of (3) only: with equal stamps and out-of-order delivery the `<=` guard of
-  `AssetState::update_from_balance` would let the older of two equal-time balances win.
+  for the BALANCE half of (3) only (`positions_agree_at_quiescence_any_clock` does without): with equal
+  stamps and out-of-order delivery the `<=` guard of `AssetState::update_from_balance` would let the
+  older of two equal-time balances win.
 * `Fresh e nA k` — the engine the builder built starts with empty position managers for `k`
   instruments, empty balance registers for `nA` assets and an empty delivery log
   (`EngineStateBuilder` without seeded balances; `lMkEngine` is such an engine).
-* `PosReq r` for the requests sent — open requests carry positive quantities (C02's hypothesis).
+* `PosReq r` for the requests sent — open requests carry positive quantities (C02's hypothesis). It is
+  DERIVED FROM THE INPUTS in §7: under the input-level guard `PosOps acts` (every open request sent
+  through the handle and every market item pushed has a positive price, every quantity asked for is
+  positive) every request of every run — the strategy's reactions and the closing orders of
+  `close_positions` included — is positive (`posOps_requests_positive`), and no tick of the engine hits
+  a vanishing divisor (`posOps_no_panic`). Outside the guard the REAL engine panics where the model
+  continues: `tickPanics`, `price_zero_exit_panics_witness`, `zero_quantity_position_panics_witness`.
 * fresh client order ids (C10's hypothesis) appear as "no open request for the same key is sent"
   in (2); the exchange configuration needs no well-formedness for (1)–(5) (an ill-formed one makes
   the exchange panic = reject here), `c.wf` is only used to discharge C08 / C08C hypotheses in §6.
@@ -29,23 +37,43 @@ Hypotheses, stated where used:
   (§6 instantiates the configuration with `MockInstruments.specCfg`).
 
 What a user relies on, and where it is proved:
-1. request conservation — `requests_are_what_ticks_report_sent`, `engine_log_is_requests`,
-   `one_response_per_request`, `responses_processed_at_most_once`, `every_request_answered_once_at_quiescence`,
-   `response_is_exchange_answer`; the manager and the client in detail: `mock_client_echoes` (C07's
-   `EchoesKey` discharged), `response_is_managers_event`, `manager_answers_exactly_once`,
-   `client_protocol_hypothesis`, `client_returns_exchange_verdict` (C08C);
+1. responses are answers to requests (system level, over `lreach`) — `responses_processed_at_most_once`,
+   `responses_never_exceed_requests`, `every_request_answered_once_at_quiescence`,
+   `responses_are_requests_at_quiescence`: what the ENGINE has processed is, at every moment, part of
+   what the execution side produced, never twice, and all of it at quiescence. That the execution
+   side produces exactly one response per request holds BY CONSTRUCTION of the one-step `respond`
+   (bookkeeping: `one_response_per_request`, `response_is_exchange_answer`, `engine_log_is_requests`,
+   `exchange_is_C08_run`, `requests_are_what_ticks_report_sent`); what justifies that one step are C07
+   and C08C, re-exported here over THEIR OWN transition systems, which are not tied to `lreach` by a
+   simulation: `mock_client_echoes` (C07's `EchoesKey` discharged), `response_is_managers_event`,
+   `manager_answers_exactly_once`, `client_protocol_hypothesis`, `client_returns_exchange_verdict`;
 2. the order life cycle closes — `exchange_response_is_final`, `produced_orders_are_final`,
-   `response_closes_order`, `response_step_is_lifecycle` (C01), `closed_until_next_request`,
-   `order_gone_after_response`, `tracked_order_has_response_outstanding`, `no_order_tracked_at_quiescence`;
-3. accounting agreement at quiescence — `exchange_invariant`, `exchange_fills_positive`,
-   `positions_agree_at_quiescence`, `balances_agree_at_quiescence`, `accounting_agreement_at_quiescence`,
-   `exchange_is_C08_run`, `engine_view_refines_exchange_spec` (the oracle of the `spec` driver),
-   `command_reads_accounted_position`; through the index / name translation:
+   `processed_orders_never_reopen`, `response_closes_order`, `response_step_is_lifecycle` (C01),
+   `closed_until_next_request`, `order_gone_after_response`, `tracked_order_has_response_outstanding`,
+   `no_order_tracked_at_quiescence`;
+3. accounting agreement at quiescence, WHILE THE ENGINE RUNS (`Quiescent` includes `stopped = none`:
+   nothing here applies to the engine `shutdown()` / `abort()` hand back, for which (5) and F11 are
+   the statements) — `exchange_invariant`, `produced_fills_are_trade_log`, `exchange_fills_positive`,
+   `positions_agree_at_quiescence` (+ `…_any_clock`), `balances_agree_at_quiescence`,
+   `accounting_agreement_at_quiescence`, `engine_view_refines_exchange_spec`; through the index / name
+   translation, for OPEN requests (same balance snapshot and fill — both absent for a rejected order —
+   and the same verdict when ACCEPTED; cancels and the rejection outcome are C04M's, not restated):
    `name_level_exchange_shows_this_exchange` (C04 / C04M);
-4. rejected orders change nothing — `rejected_changes_no_ledger`, `order_response_changes_no_accounting`;
+4. rejected orders change nothing — `rejected_changes_no_ledger`;
 5. before quiescence the engine shows the accounting of what it has HEARD — `engine_view_is_heard`,
-   `heard_balance_is_latest_heard`, `heard_is_part_of_exchange_log`, `stopped_engine_hears_nothing_more`,
-   and the C20 finding F11 kept as a witness: `shutdown_overtakes_fill_witness`.
+   `heard_balance_is_latest_heard`, `heard_is_part_of_exchange_log`, and the C20 finding F11 kept as a
+   witness: `shutdown_overtakes_fill_witness`;
+7. the input-level guard — `posOps_requests_positive`, `posOps_no_panic`,
+   `accounting_agreement_at_quiescence_of_posOps`, and the witnesses of what it excludes;
+8. the OPS-LEVEL specification (`TradingLoop.OpsSpec`, review B C20E-1: the `spec` driver's oracle,
+   a function of the op script and of the C08 / C02 / C01 specifications, not of the model's run) is
+   refined by the model: `requests_refine_ops_spec` (every schedule, every moment: the requests the
+   engine has sent are those the specification derives from the script) and `model_refines_ops_spec`
+   (at quiescence: exchange ledger and trade log, engine positions and balances, processed responses,
+   order tables are what the specifications compute from the script alone).
+Definitional / bookkeeping (kept, not results): `order_response_changes_no_accounting` (four `rfl`),
+`command_reads_accounted_position` (reconciles a duplicate field of the model), `lMkEngine_*`,
+`lreach_eq_run`, `stopped_engine_hears_nothing_more` (C20S `nothing_after_stop` restated).
 -/
 namespace BarterModel.Props.C20E
 open BarterModel.SysHandle BarterModel.TradingLoop
@@ -275,19 +303,76 @@ theorem closed_until_next_request (s : LEng) (ev : LEv) (i cid : Nat)
     Engine.orderState (lProcess s ev).1.core i cid = none :=
   lStep_keeps_none s ev i cid h0 hre hsent
 
+/-- Every order snapshot the execution side ever produces is final. -/
+theorem produced_orders_are_final (clk : Nat → Int) (b : SystemBuild LEng) (c : MockExchange.Cfg)
+    (acts : List (Act MktEv Command)) : AllFinal (lreach clk b c acts).produced := by
+  have hall : ∀ (rs : List Req) (x : LExch), AllFinal (respondAll (lExchange clk) x rs).2 := by
+    intro rs
+    induction rs with
+    | nil => intro x i sn h; simp [respondAll] at h
+    | cons r rs ih =>
+      intro x i sn h
+      simp only [respondAll, List.mem_append] at h
+      rcases h with h | h
+      · cases r with
+        | cnl r => simp [lExchange, respond] at h
+        | opn r =>
+          obtain ⟨res, hres, hacc, hrej⟩ := exchange_response_is_final clk x r
+          obtain ⟨res', hres', hout⟩ := response_is_exchange_answer clk x r
+          have : res' = res := by rw [hres] at hres'; injection hres' with h; exact h.symm
+          subst this
+          have h : AccEv.order i sn ∈ (respond clk x (.opn r)).2 := h
+          rw [hout] at h
+          rcases List.mem_cons.mp h with h | h
+          · injection h with h1 h2
+            subst h2
+            by_cases ha : ∃ f, res' = .accepted f
+            · exact ⟨_, hacc ha⟩
+            · exact ⟨_, hrej (fun f hf => ha ⟨f, hf⟩)⟩
+          · obtain ⟨e, _, he⟩ := List.mem_map.mp h
+            cases e <;> cases he
+      · exact ih _ i sn h
+  have h := (Props.C20S.requests_reach_exchange_in_order lEngine (lExchange clk) b
+    (exchInit clk c).1 (exchInit clk c).2 acts).2.2
+  have h : (lreach clk b c acts).produced = _ := h
+  intro i sn hm
+  rw [h] at hm
+  rcases List.mem_append.mp hm with hm | hm
+  · simp [exchInit] at hm
+  · exact hall _ _ i sn hm
+
+/-- (hypothesis `hre` of the former `order_gone_after_response` DISCHARGED, review B C20E-6) No event the
+engine ever processes re-opens an order: every order snapshot it processes was produced by the
+execution side, and those are all final (`produced_orders_are_final`). -/
+theorem processed_orders_never_reopen (clk : Nat → Int) (b : SystemBuild LEng) (c : MockExchange.Cfg)
+    (acts : List (Act MktEv Command)) (i cid : Nat) :
+    ∀ ev ∈ (lreach clk b c acts).processed, NoReopen i cid ev := by
+  intro ev hev sn he _
+  subst he
+  obtain ⟨rest, hr⟩ := (Props.C20S.streams_in_order lEngine (lExchange clk) b
+    (exchInit clk c).1 (exchInit clk c).2 acts).1.2
+  have hfin := produced_orders_are_final clk b c acts
+  apply hfin i sn
+  apply hr.mem_iff.mp
+  apply List.mem_append_left
+  simp only [accountOf, List.mem_filterMap]
+  exact ⟨_, hev, rfl⟩
+
 /-- (2, every schedule) Once the engine has processed the response to an order `(i, cid)` — a final
 order snapshot, which is all this exchange ever answers (`exchange_response_is_final`) — the order is
 no longer in flight nor tracked in any other way: it is GONE from the engine's order table, and stays
 gone for as long as the engine sends no new open request for the same `(i, cid)` (fresh client order
-ids) and no later snapshot reports it active. `post` is everything processed after the response. -/
+ids). That no later snapshot reports it active again is no longer a hypothesis: it holds of every
+processed history (`processed_orders_never_reopen`). `post` is everything processed after the response. -/
 theorem order_gone_after_response (clk : Nat → Int) (b : SystemBuild LEng) (c : MockExchange.Cfg)
     (acts : List (Act MktEv Command)) (pre post : List LEv) (i : Nat) (sn : Orders.Snap)
     (kd : Orders.Inactive) (hfin : sn.state = .inactive kd)
     (hp : (lreach clk b c acts).processed = pre ++ .account (.order i sn) :: post)
-    (hre : ∀ ev ∈ post, NoReopen i sn.cid ev)
     (hsent : ∀ o, Req.opn o ∈ requestsOf lEngine ⟨engFold lEngine b.engine pre, 0⟩
         (.account (.order i sn) :: post) → ¬ (o.key.instrument = i ∧ o.key.cid = sn.cid)) :
     Engine.orderState (lreach clk b c acts).eng.state.core i sn.cid = none := by
+  have hre : ∀ ev ∈ post, NoReopen i sn.cid ev := fun ev hev =>
+    processed_orders_never_reopen clk b c acts i sn.cid ev (by rw [hp]; simp [hev])
   have hfold := (Props.C20S.engine_is_fold lEngine (lExchange clk) b (exchInit clk c).1
     (exchInit clk c).2 acts).1
   have hfold : (lreach clk b c acts).eng.state = engFold lEngine b.engine (lreach clk b c acts).processed :=
@@ -332,44 +417,6 @@ theorem order_gone_after_response (clk : Nat → Int) (b : SystemBuild LEng) (c 
         simp only [requestsOf, processWithAudit, List.mem_append]
         exact Or.inr ho
   exact key post _ 1 h1 hre hsent'
-
-/-- Every order snapshot the execution side ever produces is final. -/
-theorem produced_orders_are_final (clk : Nat → Int) (b : SystemBuild LEng) (c : MockExchange.Cfg)
-    (acts : List (Act MktEv Command)) : AllFinal (lreach clk b c acts).produced := by
-  have hall : ∀ (rs : List Req) (x : LExch), AllFinal (respondAll (lExchange clk) x rs).2 := by
-    intro rs
-    induction rs with
-    | nil => intro x i sn h; simp [respondAll] at h
-    | cons r rs ih =>
-      intro x i sn h
-      simp only [respondAll, List.mem_append] at h
-      rcases h with h | h
-      · cases r with
-        | cnl r => simp [lExchange, respond] at h
-        | opn r =>
-          obtain ⟨res, hres, hacc, hrej⟩ := exchange_response_is_final clk x r
-          obtain ⟨res', hres', hout⟩ := response_is_exchange_answer clk x r
-          have : res' = res := by rw [hres] at hres'; injection hres' with h; exact h.symm
-          subst this
-          have h : AccEv.order i sn ∈ (respond clk x (.opn r)).2 := h
-          rw [hout] at h
-          rcases List.mem_cons.mp h with h | h
-          · injection h with h1 h2
-            subst h2
-            by_cases ha : ∃ f, res' = .accepted f
-            · exact ⟨_, hacc ha⟩
-            · exact ⟨_, hrej (fun f hf => ha ⟨f, hf⟩)⟩
-          · obtain ⟨e, _, he⟩ := List.mem_map.mp h
-            cases e <;> cases he
-      · exact ih _ i sn h
-  have h := (Props.C20S.requests_reach_exchange_in_order lEngine (lExchange clk) b
-    (exchInit clk c).1 (exchInit clk c).2 acts).2.2
-  have h : (lreach clk b c acts).produced = _ := h
-  intro i sn hm
-  rw [h] at hm
-  rcases List.mem_append.mp hm with hm | hm
-  · simp [exchInit] at hm
-  · exact hall _ _ i sn hm
 
 /-- (in flight ⇒ a response is still to come; every schedule, every moment) Whatever the engine
 tracks for `(i, cid)` — in flight, cancel in flight — more open requests for `(i, cid)` have been sent
@@ -561,15 +608,20 @@ exchange task scheduled or not — on the exchange of the composition. Whenever 
 returns with a response, that response is the verdict `MockExchange::open_order` gives on THAT call's
 own request, stamped with the caller's clock, in the exchange state the requests processed BEFORE it
 left: exactly the `res` from which `respond` builds the order snapshot (`response_is_exchange_answer`,
-`exchange_is_C08_run`). No cross-talk between concurrent requests, no reordering. -/
+`exchange_is_C08_run`). No cross-talk between concurrent requests, no reordering. (`ledgerTime` /
+`ledgerOps`: the request times under which the C08 ledger stamps what the code stamps — the request
+time itself whenever `t + latency / 2` is a `DateTime<Utc>`, `Props.C08C.ledger_time_cases`; the clocks
+of the composition are far inside that range.) This is a statement about the C08C transition system,
+NOT about `lreach`: the composition takes the client protocol as one step (see the header). -/
 theorem client_returns_exchange_verdict (c : MockExchange.Cfg) (hc : c.wf = true) (cap w : Nat)
     {s : MockClient.Sys} (h : Props.C08C.Reach (xcfg c cap) w s) (d : MockClient.Done) (hdn : d ∈ s.out)
     (r : MockClient.XResp) (hr : d.out = .answered r) (q : MockExchange.Req) (tif : Nat)
     (hw : d.what = .open q tif) :
     ∃ (k : Nat) (cr : MockClient.CRec) (res : MockExchange.Result),
       s.calls[d.call]? = some cr ∧ cr.worker = d.worker ∧ r = .order res ∧
-      (MockExchange.step (MockExchange.run (MockExchange.init c) (MockClient.plogOps (s.plog.take k)))
-        cr.t (.openOrder q)).2.1 = .order res := by
+      (MockExchange.step (MockExchange.run (MockExchange.init c)
+          (MockClient.ledgerOps c.latency (MockClient.plogOps (s.plog.take k))))
+        (MockClient.ledgerTime c.latency cr.t) (.openOrder q)).2.1 = .order res := by
   obtain ⟨k, p, cr, _, _, hcr, hwk, hwhat, _, _, hresp, _⟩ :=
     Props.C08C.response_is_answer_to_own_request (c := xcfg c cap) hc (client_protocol_hypothesis c cap)
       h d hdn r hr
@@ -577,7 +629,11 @@ theorem client_returns_exchange_verdict (c : MockExchange.Cfg) (hc : c.wf = true
   rw [hresp, hwhat, hw]
   have hb := (Props.C08C.ledger_is_C08 (MockClient.XState.init (xcfg c cap)) 0 .fetchSnapshot
     (MockClient.plogOps (s.plog.take k))).2.2
-  simp only [MockClient.Call.wire, MockClient.XState.step, MockExchange.step_open_resp, hb]
+  have hl : ((MockClient.XState.init (xcfg c cap)).run (MockClient.plogOps (s.plog.take k))).base.latency =
+      c.latency := by
+    rw [MockClient.xrun_latency]; rfl
+  simp only [MockClient.Call.wire, MockClient.XState.step, MockExchange.step_open_resp, hl]
+  rw [hb]
   rfl
 
 /-! ## 3. Accounting agreement at quiescence -/
@@ -626,6 +682,50 @@ theorem positions_agree_at_quiescence (clk : Nat → Int) (hclk : StrictClock cl
     (exchange_fills_positive clk b c acts hpos) i hi
   have : (lreach clk b c acts).eng.state = engFold lEngine b.engine (lreach clk b c acts).processed := hfold
   rw [this, engFold_pos, hf.pos]
+
+/-- (the trade-log half of `exchange_invariant`, ANY client clock) In every reachable state the fills
+among the account events produced so far are, in order, the exchange's own trade log. -/
+theorem produced_fills_are_trade_log (clk : Nat → Int) (b : SystemBuild LEng) (c : MockExchange.Cfg)
+    (acts : List (Act MktEv Command)) :
+    tradesOf (lreach clk b c acts).produced = (lreach clk b c acts).exch.x.trades.map toPosTrade := by
+  have h := Props.C20S.requests_reach_exchange_in_order lEngine (lExchange clk) b
+    (exchInit clk c).1 (exchInit clk c).2 acts
+  have h1 : (lreach clk b c acts).exch = _ := h.2.1
+  have h2 : (lreach clk b c acts).produced = _ := h.2.2
+  rw [h1, h2]
+  apply respondAll_trades_inv
+  simp [exchInit, tradesOf, MockExchange.step, MockExchange.updateTime, MockExchange.init]
+
+/-- (3a without `StrictClock`, review B C20E-10) The position half of the agreement needs no hypothesis
+on the client's clock: fills carry no time stamp that the position arithmetic reads. -/
+theorem positions_agree_at_quiescence_any_clock (clk : Nat → Int) (b : SystemBuild LEng)
+    (c : MockExchange.Cfg) (acts : List (Act MktEv Command)) (nA k : Nat) (hf : Fresh b.engine nA k)
+    (hpos : ∀ r ∈ (lreach clk b c acts).requests, PosReq r) (hq : Quiescent (lreach clk b c acts))
+    (i : Nat) (hi : i < k) :
+    enginePos (lreach clk b c acts).eng.state i = Spec.net (lreach clk b c acts).exch.x.trades i := by
+  have hperm := (Props.C20S.quiescent_everything_processed lEngine (lExchange clk) b
+    (exchInit clk c).1 (exchInit clk c).2 acts hq).2.2
+  have hfold : (lreach clk b c acts).eng.state = engFold lEngine b.engine (lreach clk b c acts).processed :=
+    (Props.C20S.engine_is_fold lEngine (lExchange clk) b (exchInit clk c).1 (exchInit clk c).2 acts).1
+  have htr := produced_fills_are_trade_log clk b c acts
+  have hq' := exchange_fills_positive clk b c acts hpos
+  have hmem : ∀ t ∈ tradesOf (accountOf (lreach clk b c acts).processed), 0 < t.quantity := by
+    intro t ht
+    have : t ∈ tradesOf (lreach clk b c acts).produced := (tradesOf_perm hperm).mem_iff.mp ht
+    rw [htr] at this
+    obtain ⟨t0, ht0, rfl⟩ := List.mem_map.mp this
+    exact hq' t0 ht0
+  have hroute := Props.C02.engine_routes_per_instrument k (tradesOf (accountOf (lreach clk b c acts).processed)) i hi
+  have hpq : Position.PosQty ((tradesOf (accountOf (lreach clk b c acts).processed)).filter fun f => f.instrument = i) :=
+    fun f hf' => hmem f (List.mem_filter.mp hf').1
+  have hnet := (Props.C02.size_is_net _ (Props.C02.oneInstrument_filter
+    (tradesOf (accountOf (lreach clk b c acts).processed)) i) hpq).1
+  unfold enginePos
+  rw [hfold, engFold_pos, hf.pos, hroute]
+  simp only
+  rw [hnet, ← net_toPosTrade, ← htr]
+  unfold Position.net
+  exact perm_sum_rat (((tradesOf_perm hperm).filter _).map _)
 
 /-- (3b, balances) … and the engine's balance register of every asset of the exchange holds exactly
 the exchange's ledger entry for that asset (C09 `carries_max` over C08 `exact_debit`): the latest
@@ -750,7 +850,12 @@ with the SAME balance snapshot (asset index, amounts), the SAME fill (instrument
 quantity, fees) and — when accepted — the same verdict under the same engine key. So (1)–(5), proved
 over indices, are statements about the exchange the code talks to by name; in particular the asset
 whose register (3b) compares IS the instrument's own quote / base asset (C04M
-`same_assets_for_every_order`). Time stamps are not part of `MockInstruments.Events`. -/
+`same_assets_for_every_order`). Time stamps are not part of `MockInstruments.Events`.
+Scope (review B C20E-4): histories of OPEN requests only (`rs.map Req.opn` — a reachable `s.exch` has
+cancel requests interleaved; they change neither ledger nor trade log, but that is not restated here),
+and the verdict conjunct is stated for ACCEPTED orders only; what a rejected order looks like under
+names is `Props.C04M.reject_outcome_refines_view`. For a rejected order the first two conjuncts say
+that neither side shows a balance snapshot or a fill. -/
 theorem name_level_exchange_shows_this_exchange {defs : List Index.Def} {ii : Index.Indexed}
     {mc : MockInstruments.MockConfig} {m : ExecMap.EMap} {t : MockInstruments.Table}
     (H : MockInstruments.ViewHyp defs ii mc m t)
@@ -1009,6 +1114,210 @@ theorem shutdown_overtakes_fill_witness :
     Spec.agreeB a.eng.state a.exch.x = true ∧ Spec.agreeB o.eng.state o.exch.x = false := by
   decide +kernel
 
+/-! ## 7. The input-level guard `PosOps` (review B C20E-3 / -5) -/
+
+/-- The engine `SystemBuilder::build` builds for the correspondence is an ok state. -/
+theorem lMkEngine_stateOk (k : Nat) (trading : Bool) : LStateOk (lMkEngine k trading) := by
+  refine ⟨lMkEngine_posSync k trading, ?_, ?_, ?_⟩
+  · intro j r hr p hp
+    simp only [lMkEngine, Position.Instruments.init] at hr
+    have : r = Position.Run.init := by
+      have := List.mem_of_getElem? hr
+      simpa using (List.eq_of_mem_replicate this)
+    rw [this] at hp
+    cases hp
+  · intro st hst p hp
+    simp only [lMkEngine, List.mem_map] at hst
+    obtain ⟨j, _, rfl⟩ := hst
+    cases hp
+  · intro t ht; simp [lMkEngine] at ht
+
+theorem lInit_posInv (clk : Nat → Int) (b : SystemBuild LEng) (c : MockExchange.Cfg) (hok : LStateOk b.engine) :
+    LPosInv (lInit clk b c) :=
+  { reqs := by intro r hr; simp [lInit, SystemBuild.init] at hr
+    pend := by
+      intro a ha
+      simp only [lInit, SystemBuild.init, exchInit, List.mem_singleton] at ha
+      subst ha; trivial
+    feed := by intro ev hev; simp [lInit, SystemBuild.init] at hev
+    mkt := by intro m hm; simp [lInit, SystemBuild.init] at hm
+    proc := by intro ev hev; simp [lInit, SystemBuild.init] at hev
+    st := hok }
+
+/-- (`hpos` DISCHARGED FROM THE INPUTS) If every open request sent through the handle and every market
+item pushed satisfies the guard `PosOps` (positive prices and quantities: what harness and drivers
+enforce, anything else is outside the generator), then along EVERY schedule every request the engine
+sends — the user's, the strategy's reactions, AND the closing orders `close_positions` derives from the
+engine's own positions and last prices — carries a positive price and a positive quantity; in
+particular `PosReq` holds of the whole request log. -/
+theorem posOps_requests_positive (clk : Nat → Int) (b : SystemBuild LEng) (c : MockExchange.Cfg)
+    (acts : List (Act MktEv Command)) (hok : LStateOk b.engine) (hops : PosOps acts) :
+    (∀ r ∈ (lreach clk b c acts).requests, LReqOk r) ∧
+    (∀ r ∈ (lreach clk b c acts).requests, PosReq r) ∧
+    LStateOk (lreach clk b c acts).eng.state := by
+  have h := lPosInv_run clk acts _ (lInit_posInv clk b c hok) hops
+  exact ⟨h.reqs, fun r hr => (h.reqs r hr).posReq, h.st⟩
+
+/-- (no panic under the guard) Under `PosOps`, along every schedule, NO tick of the engine hits a
+vanishing divisor of the position code: for every processed event, `tickPanics` is false in the state
+the event was applied to. -/
+theorem posOps_no_panic (clk : Nat → Int) (b : SystemBuild LEng) (c : MockExchange.Cfg)
+    (acts : List (Act MktEv Command)) (hok : LStateOk b.engine) (hops : PosOps acts)
+    (pre post : List LEv) (ev : LEv) (hp : (lreach clk b c acts).processed = pre ++ ev :: post) :
+    tickPanics (engFold lEngine b.engine pre) ev = false := by
+  have h := lPosInv_run clk acts _ (lInit_posInv clk b c hok) hops
+  have hproc : ∀ x ∈ pre, LEvOk x ∧ LEvGuard x := by
+    intro x hx
+    apply h.proc x
+    show x ∈ (lreach clk b c acts).processed
+    rw [hp]; simp [hx]
+  exact tickPanics_false _ ev (lStateOk_engFold b.engine pre hok hproc)
+
+
+/-! ## 8. The ops-level specification (review B C20E-1) -/
+
+/-- the built engine starts linked to the specification's empty book -/
+theorem lMkEngine_slink (k : Nat) (trading : Bool) : SLink (lMkEngine k trading) ⟨trading, []⟩ :=
+  { trading := rfl, links := rfl, le := Nat.le_refl _, un := rfl, settled := fun _ => rfl
+    exch := by
+      intro j st' h
+      simp only [lMkEngine, List.getElem?_map] at h
+      cases hr : (List.range k)[j]? with
+      | none => simp [hr] at h
+      | some v => simp only [hr, Option.map_some, Option.some.injEq] at h; rw [← h] }
+
+theorem handleOf_scriptOf (h : List LEv) : handleOf (OpsSpec.scriptOf h) = handleOf h := by
+  induction h with
+  | nil => rfl
+  | cons ev h ih => cases ev <;> simp_all [OpsSpec.scriptOf, handleOf, Ev.isHandle, List.filter_cons]
+
+theorem marketOf_scriptOf (h : List LEv) : marketOf (OpsSpec.scriptOf h) = marketOf h := by
+  induction h with
+  | nil => rfl
+  | cons ev h ih => cases ev <;> simp_all [OpsSpec.scriptOf, marketOf, Ev.market?, List.filter_cons, List.filterMap_cons]
+
+/-- (requests, every schedule, every moment) Along every schedule from the built engine, as long as the
+script processed so far is in the class `Det` (no `close_positions` / `cancel_orders` command, every
+request addressed to the one exchange and one of its `k` instruments), the requests the engine has sent
+are EXACTLY those the ops-level specification derives from the script — the handle and market events
+in the order processed —: same requests, same order, nothing of the engine's own. -/
+theorem requests_refine_ops_spec (clk : Nat → Int) (b : SystemBuild LEng) (c : MockExchange.Cfg)
+    (acts : List (Act MktEv Command)) (k : Nat) (trading : Bool) (hb : b.engine = lMkEngine k trading)
+    (hdet : OpsSpec.Det k (OpsSpec.scriptOf (lreach clk b c acts).processed)) :
+    (lreach clk b c acts).requests =
+      OpsSpec.requests trading (OpsSpec.scriptOf (lreach clk b c acts).processed) := by
+  have h := (Props.C20S.requests_reach_exchange_in_order lEngine (lExchange clk) b
+    (exchInit clk c).1 (exchInit clk c).2 acts).1
+  have h : (lreach clk b c acts).requests = _ := h
+  rw [h]
+  exact requestsOf_refines k _ (eng0 b.engine b.auditMode) ⟨trading, []⟩
+    (by show SLink b.engine _; rw [hb]; exact lMkEngine_slink k trading) hdet
+
+/-- (`…_refines_ops_spec`: ops-spec ⊒ model) At quiescence — every schedule — for a script in the class
+`Det` under the input guard `PosOps`, everything the two views show is what the SPECIFICATIONS compute
+from the script alone: the exchange's own ledger and trade log are the C08 specification's (accepted
+iff funds, exact debit, one fill per accepted order) over the script's requests; the engine's position
+on every instrument is the C02 net of those fills; its balance of every asset is that ledger's entry;
+the responses it has processed are, as a multiset, one per request of the script; it tracks no order
+(C01: every life cycle closed by its response); and the script IS what the user did: all handle events
+sent, in call order, and all market items pushed, in order (their interleaving is the scheduler's). -/
+theorem model_refines_ops_spec (clk : Nat → Int) (hclk : StrictClock clk) (b : SystemBuild LEng)
+    (c : MockExchange.Cfg) (acts : List (Act MktEv Command)) (k : Nat) (trading : Bool) (hc : c.wf = true)
+    (hb : b.engine = lMkEngine k trading) (hk : c.instruments.length = k) (hn : c.init.length = k + 1)
+    (hops : PosOps acts) (hq : Quiescent (lreach clk b c acts))
+    (hdet : OpsSpec.Det k (OpsSpec.scriptOf (lreach clk b c acts).processed)) :
+    let s := lreach clk b c acts
+    let script := OpsSpec.scriptOf s.processed
+    MockExchange.ledger s.exch.x = OpsSpec.ledger c clk trading script ∧
+    s.exch.x.trades = MockExchange.Spec.fills c (OpsSpec.accepted c clk trading script) ∧
+    (∀ i, i < k → enginePos s.eng.state i = OpsSpec.net c clk trading script i) ∧
+    (∀ a, a < k + 1 → engineBal s.eng.state a = (OpsSpec.ledger c clk trading script)[a]?) ∧
+    ((accountOf s.processed).filterMap responseIdent).Perm (OpsSpec.responses trading script) ∧
+    (∀ i cid, Engine.orderState s.eng.state.core i cid = none) ∧
+    handleOf script = s.sent ∧ marketOf script = s.pushed := by
+  intro s script
+  have hreq := requests_refine_ops_spec clk b c acts k trading hb hdet
+  have hok : LStateOk b.engine := by rw [hb]; exact lMkEngine_stateOk k trading
+  have hpos := (posOps_requests_positive clk b c acts hok hops).2.1
+  have hf : Fresh b.engine c.init.length c.instruments.length := by
+    rw [hb, hk, hn]; exact lMkEngine_fresh k trading
+  have hlog := (engine_log_is_requests clk b c acts hf.log).1
+  have hview := engine_view_refines_exchange_spec clk hclk b c acts hc hf hpos hq
+  simp only at hview
+  rw [hlog, hreq] at hview
+  have hrun := (exchange_is_C08_run clk b c acts).1
+  have hspec := Props.C08.refines_spec hc (exchHistory clk (lreach clk b c acts).requests)
+  rw [hreq] at hspec hrun
+  have hqp := Props.C20S.quiescent_everything_processed lEngine (lExchange clk) b
+    (exchInit clk c).1 (exchInit clk c).2 acts hq
+  refine ⟨?_, ?_, ?_, ?_, ?_, ?_, ?_, ?_⟩
+  · show MockExchange.ledger (lreach clk b c acts).exch.x = _
+    rw [hrun]; exact hspec.1
+  · show (lreach clk b c acts).exch.x.trades = _
+    rw [hrun]; exact hspec.2.1
+  · intro i hi; exact hview.1 i (by rw [hk]; exact hi)
+  · intro a ha; exact hview.2 a (by rw [hn]; exact ha)
+  · have := responses_are_requests_at_quiescence clk b c acts hq
+    simp only at this
+    rw [hreq] at this
+    exact this
+  · intro i cid
+    apply no_order_tracked_at_quiescence clk b c acts _ hq i cid
+    intro i cid; rw [hb]; exact lMkEngine_no_orders k trading i cid
+  · rw [handleOf_scriptOf]; exact hqp.1
+  · rw [marketOf_scriptOf]; exact hqp.2.1
+
+/-- (3 with `hpos` discharged) Accounting agreement at quiescence under the input-level guard. -/
+theorem accounting_agreement_at_quiescence_of_posOps (clk : Nat → Int) (hclk : StrictClock clk)
+    (b : SystemBuild LEng) (c : MockExchange.Cfg) (acts : List (Act MktEv Command))
+    (hf : Fresh b.engine c.init.length c.instruments.length) (hok : LStateOk b.engine)
+    (hops : PosOps acts) (hq : Quiescent (lreach clk b c acts)) :
+    Spec.Agree (lreach clk b c acts).eng.state (lreach clk b c acts).exch.x :=
+  accounting_agreement_at_quiescence clk hclk b c acts hf
+    (posOps_requests_positive clk b c acts hok hops).2.1 hq
+
+/-! ### What the guard excludes: the real engine panics (witnesses) -/
+
+/-- a buy of 1 at price 0 is accepted and filled; then a sell of 2 at price 0 is accepted and its
+response and balance have been processed — the fill that flips the position is next -/
+def wPriceZero : List (Act MktEv Command) :=
+  [ .fwdAccount 0, .engine, .call (send_open_requests [⟨⟨0, 0, 11⟩, .buy, 0, 1⟩]), .engine,
+    .fwdAccount 0, .engine, .fwdAccount 0, .engine, .fwdAccount 0, .engine,
+    .call (send_open_requests [⟨⟨0, 0, 12⟩, .sell, 0, 2⟩]), .engine,
+    .fwdAccount 0, .engine, .fwdAccount 0, .engine ]
+
+/-- (review B C20E-3, the reviewer's case `price0`) A position entered at price 0 — outside the guard
+`PosOps` — makes the REAL engine panic when it exits: `calculate_pnl_return` divides by
+`price_entry_average * quantity_abs_max = 0` (position.rs:549-555). The model continues (the `Rat`
+division gives 0); `tickPanics` says where the code does not: the one account event still pending is
+the flipping fill, and the tick that would process it panics. Harness and model driver print `panic`
+there (corpus/C20E/review_b.ops `price0`). -/
+theorem price_zero_exit_panics_witness :
+    let s := lreach wClk wBuild wCfg wPriceZero
+    s.stopped = none ∧ s.feed = [] ∧ s.pending.length = 1 ∧
+    enginePos s.eng.state 0 = 1 ∧
+    s.pending.map (fun a => tickPanics s.eng.state (.account a)) = [true] := by
+  decide +kernel
+
+/-- an open request of quantity 0 is accepted and "filled" -/
+def wZeroQty : List (Act MktEv Command) :=
+  [ .fwdAccount 0, .engine, .call (send_open_requests [⟨⟨0, 0, 11⟩, .buy, 100, 0⟩]), .engine,
+    .fwdAccount 0, .engine, .fwdAccount 0, .engine, .fwdAccount 0, .engine ]
+
+/-- (review B C20S-2) A zero-quantity fill opens a position with `quantity_abs_max = 0`; the model is
+quiescent and continues, the REAL engine panics on the NEXT event that touches the position — a market
+price for the instrument, or any fill that does not increase it by a positive amount —:
+`quantity_abs / quantity_abs_max` = 0 / 0 in `approximate_remaining_exit_fees` (position.rs:517-523). A
+same-side fill of positive quantity repairs the position (no panic). -/
+theorem zero_quantity_position_panics_witness :
+    let s := lreach wClk wBuild wCfg wZeroQty
+    s.stopped = none ∧ s.feed = [] ∧ s.pending = [] ∧ s.market = [] ∧
+    tickPanics s.eng.state (.market ⟨0, 0, 100, none, false⟩) = true ∧
+    tickPanics s.eng.state (.account (.trade ⟨1, 0, 5, .buy, 100, 0, 0⟩)) = true ∧
+    tickPanics s.eng.state (.account (.trade ⟨1, 0, 5, .sell, 100, 1, 0⟩)) = true ∧
+    tickPanics s.eng.state (.account (.trade ⟨1, 0, 5, .buy, 100, 1, 0⟩)) = false := by
+  decide +kernel
+
 /-! ## Non-vacuity -/
 
 example : StrictClock wClk := fun n => by show (n : Int) < ((n + 1 : Nat) : Int); omega
@@ -1025,6 +1334,17 @@ example : wCfg.wf = true := by decide +kernel
 example : (lreach wClk wBuild wCfg wQuiet).requests.length = 2 ∧
     enginePos (lreach wClk wBuild wCfg wQuiet).eng.state 0 = 1 ∧
     Spec.agreeB (lreach wClk wBuild wCfg wQuiet).eng.state (lreach wClk wBuild wCfg wQuiet).exch.x = true := by
+  decide +kernel
+
+-- the hypotheses of §7 / §8 hold of the quiescent schedule `wQuiet`, and there the ops-level
+-- specification's requests ARE the engine's
+example : PosOps wQuiet := by decide +kernel
+example : OpsSpec.Det 1 (OpsSpec.scriptOf (lreach wClk wBuild wCfg wQuiet).processed) := by decide +kernel
+example : (lreach wClk wBuild wCfg wQuiet).requests =
+    OpsSpec.requests false (OpsSpec.scriptOf (lreach wClk wBuild wCfg wQuiet).processed) ∧
+    OpsSpec.net wCfg wClk false (OpsSpec.scriptOf (lreach wClk wBuild wCfg wQuiet).processed) 0 = 1 ∧
+    (OpsSpec.ledger wCfg wClk false (OpsSpec.scriptOf (lreach wClk wBuild wCfg wQuiet).processed))[1]? =
+      some (900, 900) := by
   decide +kernel
 
 end BarterModel.Props.C20E
